@@ -47,7 +47,7 @@ ASSUMPTIONS = {"*": ["uniformity is judged relative to the owned source: given u
 H64 = "./0123456789ABCDEFGHIJKLMNOPQRSTUVWXYZabcdefghijklmnopqrstuvwxyz"
 SALT_HASHERS = {  # name -> (kind, sizes, alphabet or None for raw bytes)
     "md5_crypt": ("chars", [1, 2, 4, 8], H64), "apr_md5_crypt": ("chars", [2, 8], H64), "sha256_crypt": ("chars", [1, 4, 8, 16], H64),
-    "sha512_crypt": ("chars", [2, 16], H64), "sha1_crypt": ("chars", [1, 8, 64], H64), "pbkdf2_sha256": ("bytes", [1, 2, 8, 16, 32], None),
+    "sha512_crypt": ("chars", [2, 16], H64), "sha1_crypt": ("chars", [1, 8, 64], H64), "pbkdf2_sha256": ("bytes", [1, 2, 8, 16, 32, 128, 1024], None),
     "pbkdf2_sha1": ("bytes", [2, 16], None), "ldap_salted_sha1": ("bytes", [4, 8, 16], None), "django_salted_sha1": ("chars", [2, 12], None),
     "django_pbkdf2_sha256": ("chars", [2, 12], None), "scrypt": ("bytes", [1, 2, 16], None), "des_crypt": ("chars", [2], H64),
     "bsdi_crypt": ("chars", [4], H64), "phpass": ("chars", [8], H64), "bcrypt": ("bcrypt", [22], None),
@@ -82,7 +82,7 @@ def generate(rng, prop, tier):
     mode = rng.choices(["stream", "zeros", "ones", "counter", "single_bit"], [70, 8, 8, 8, 6])[0]
     p = {}
     if api == "getrandbytes":
-        p["n"] = rng.choice([1, 2, 2, 3, 4, 8, 16, 20, 32, 64, rng.randint(1, 64)])
+        p["n"] = rng.choice([1, 2, 2, 3, 4, 8, 16, 20, 32, 64, rng.randint(1, 64), 65, 128, 200, 1024])  # (also beyond one 64-byte block)
     elif api == "getrandstr":
         cs = rng.choice(ALPHABETS)
         p["charset"] = cs
@@ -111,6 +111,13 @@ def generate(rng, prop, tier):
     elif api == "totp_new":
         p["size"] = rng.choice([10, 16, 20, 20, 32, 64])
         p["alg"] = "sha1" if p["size"] <= 20 else "sha256" if p["size"] <= 32 else "sha512"
+        if rng.random() < 0.4:
+            # the DEFAULT size (the digest size of the algorithm in use) on a factory with its own default algorithm, after that
+            # factory has loaded somebody's existing key of another algorithm: history on the class must not leak into new keys
+            p["size"] = None
+            p["alg"] = rng.choice(["sha1", "sha256", "sha512"])
+            p["history_alg"] = rng.choice([None, "sha1", "sha256", "sha512"])
+            p["explicit_alg"] = rng.random() < 0.3
     elif api == "generate_secret":
         p["entropy"] = rng.choice([1, 8, 64, 128, 256])
         p["charset"] = rng.choice([None, None, "0123456789abcdef", "01", "0123456789", "abcdefghijklmnopqrstuvwxyz"])
@@ -277,8 +284,20 @@ class _Gen:
         elif a == "totp_new":
             from passlib.totp import TOTP
 
-            self.n = p["size"]
-            self.call = lambda: TOTP.new(size=p["size"], alg=p["alg"]).key
+            if p["size"] is None:
+                import warnings as _w
+
+                F = TOTP.using(alg=p["alg"])
+                if p.get("history_alg"):
+                    with _w.catch_warnings():
+                        _w.simplefilter("ignore")
+                        F.from_source(TOTP(key=b"0123456789abcdefghij", format="raw", alg=p["history_alg"], label="u").to_uri())
+                        F(key=b"0123456789abcdefghij", format="raw", alg=p["history_alg"])
+                self.n = {"sha1": 20, "sha256": 32, "sha512": 64}[p["alg"]]
+                self.call = (lambda: F.new(alg=p["alg"]).key) if p.get("explicit_alg") else (lambda: F.new().key)
+            else:
+                self.n = p["size"]
+                self.call = lambda: TOTP.new(size=p["size"], alg=p["alg"]).key
         elif a == "generate_secret":
             from passlib.totp import generate_secret
 
